@@ -512,6 +512,10 @@ fn structural_texts(name: &str, text: &str, thorough: bool) -> Vec<(String, Stri
                             if skip_v4 && fam.starts_with("v4") {
                                 continue;
                             }
+                            // the top-of-space forms: boundary lengths only in the quick tier
+                            if !thorough && fam.contains("top") && ![0u32, 1, 8, 24, 30, 31, 32, 33, 64, 96, 127, 128, 129].contains(&len) {
+                                continue;
+                            }
                             out.push((format!("{name}:{kp}<-{fam}/{len}"), emit(&replace(doc, p, &Yaml::String(format!("{addr}/{len}"))))));
                         }
                     }
